@@ -346,7 +346,7 @@ var Prop = &fw.Prop{
 		"of 0 B to 350 kB: exhaustively every size k*100000+{-1,0,1} (k=0..3), 350000 and a few small sizes, under every plugin behaviour " +
 		"(valid, invalid, open failure, receive failure, failure of send 0..4), plus random sizes (uniform, near the boundaries, small). " +
 		"Compared with the twin: result and the chunk lengths the plugin received. Non-trivial = the document needs at least two chunks.",
-	Quick: 250, Thorough: 6000,
+	Quick: 400, Thorough: 20000,
 	Gen: gen, Enumerate: enumerate,
 	NewReal:     func() fw.Real { return fw.RealFunc(exec) },
 	Monitor:     monitor,
